@@ -1365,6 +1365,13 @@ DoubleToDecimalChars(
     using std::strtod;
     using std::isdigit;
 
+    // A number without a fractional part is represented as an
+    // integer, so all of its digits are significant.
+    if (std::floor(theValue) == theValue)
+    {
+        return sprintf(theBuffer, "%.0f", theValue);
+    }
+
     // 17 significant digits always identify a double...
     const int   theMaxPrecision = 16;
 
